@@ -324,7 +324,8 @@ class ModelMixin:
     def bi_iter(self, args, kwargs, st, line):
         if len(args) == 1:
             return [ok(args[0], st)]
-        raise EngineError('iter(callable, sentinel)')
+        # iter(callable, sentinel): iteration calls the callable until it returns the sentinel
+        return [ok(st.alloc(HObj('sentinel_iter', meta={'fn': args[0], 'sentinel': args[1]})), st)]
 
     def bi_type(self, args, kwargs, st, line):
         v = args[0]
